@@ -33,6 +33,7 @@ def run_case(case, acc, order):
             # curated clusters (templates 0 and 1 merged) in half of the cases: the count is per template
             'spike_clusters': ([nt if t in (0, 1) else t for t in st] if case.get('short_last') else 'same'),
             'tfeatures': 'absent', 'sample_rate': chunk / 600.0, 'time_dtype': case['time_dtype'],
+            'templates': 'sparse' if case.get('short_last') else 'dense',
             'fill': case.get('fill', 0)}
     stride = max(1, int(math.ceil(n_chunks / float(n_kept_rule))))
     kept = [(c * chunk, min((c + 1) * chunk, n_raw)) for c in range(0, n_chunks, stride)]
@@ -81,6 +82,23 @@ def run_case(case, acc, order):
                         expected={'kept_chunks': kept[:6], 'eligible_per_template':
                                   {t: len(v) for t, v in eligible.items()}},
                         observed=bad[1]), order)
+            # a selector built on the model's own per-cluster query, asked for a curated id
+            if case.get('short_last'):
+                from phylib.io.array import SpikeSelector
+                try:
+                    sel = SpikeSelector(get_spikes_per_cluster=m.get_cluster_spikes,
+                                        spike_times=m.spike_samples, chunk_bounds=[0, n_raw],
+                                        n_chunks_kept=1)
+                    got = sorted(int(x) for x in sel(None, [nt, 2]))
+                except Exception as e:
+                    got = repr(e)
+                exp = [i for i in range(ns) if st[i] in (0, 1, 2)]
+                acc.step(True, 'model:selector-on-model-callback')
+                if got != exp:
+                    sig = '%s/model-selector/%s' % (PROP, 'value' if isinstance(got, list) else 'exception')
+                    acc.violation(sig, core.make_record(
+                        PROP, 'model', sig, case=case, op={'clusters': [nt, 2], 'count': None},
+                        expected=exp[:20], observed=got[:20] if isinstance(got, list) else got), order)
         finally:
             m.close()
     acc.sample({'model_route': {'chunk': chunk, 'n_chunks': n_chunks, 'n_spikes': ns,
